@@ -27,6 +27,22 @@ pub enum Built {
 /// Emit and build the corpus; machinery problems end the process with exit code 2.
 pub fn build(tier: Tier) -> Built {
     let dir = corpus_dir(tier);
+    // C16 and C20 share the corpus crate: one emits and builds at a time (advisory lock, released
+    // when the file is closed at the end of this function)
+    let _ = std::fs::create_dir_all(mcx::report::verif_root().join(".work"));
+    let lock = std::fs::OpenOptions::new()
+        .create(true)
+        .write(true)
+        .truncate(false)
+        .open(mcx::report::verif_root().join(".work").join(format!("corpus-{}.lock", tier.name())))
+        .unwrap_or_else(|e| mcx::machinery(format!("cannot open the corpus lock file: {e}")));
+    {
+        use std::os::fd::AsRawFd;
+        // SAFETY: flock on a file descriptor this function owns
+        if unsafe { libc::flock(lock.as_raw_fd(), libc::LOCK_EX) } != 0 {
+            mcx::machinery("cannot lock the corpus directory".to_string());
+        }
+    }
     let em = match corpus::emit(&dir, tier == Tier::Thorough, &format!("corpus-{}", tier.name())) {
         Ok(e) => e,
         Err(e) => return Built::Violation("generator-fails-on-valid-schema".into(), e),
@@ -47,6 +63,7 @@ pub fn build(tier: Tier) -> Built {
         }
         mcx::machinery(format!("the corpus crate does not build (not in generated code):\n{}", err.lines().take(40).collect::<Vec<_>>().join("\n")));
     }
+    drop(lock);
     Built::Ok(target_dir().join("debug").join(format!("corpus-{}", tier.name())), em)
 }
 
